@@ -6,6 +6,9 @@ ROOT = os.path.dirname(os.path.dirname(os.path.abspath(__file__)))
 
 # id -> (level, technique, level text, level note, design ref)
 CHECKS = {
+    "C04": ("exploration", "runtime monitoring: differential oracle — the encoder's output is read by an independent DAG-JSON reader (encoding/json token stream + reserved-form rules) and by the library decoder, both compared with the abstract value; encodings compared across insertion orders and implementations; failed decodes interleaved",
+            "Held on the executions observed apart from two known findings with one cause in the pinned dependency refmt (integral floats are written without '.' and so change kind or stop decoding). Sampling with boundary bias.",
+            "Trusted: encoding/json as tokenizer, go-cid for the CID string form, internal/ref/json.", "DESIGN.md §2 C04"),
     "C12": ("exploration", "runtime monitoring: model-based monitor of assembler call sequences — generated legal sequences with the two pinned rejections (repeated key in three call forms; unacceptable kind) injected at random positions, outcome class per call and read-out of Build() checked against a sequential model of the contract; Reset/reuse sequences",
             "Held on the sequences observed for basicnode, bindnode (struct, typed maps, renamed representation, Any map; type and representation level) and the checked-in generated code, apart from one known finding (generated typed maps accept a repeated key through AssembleKey). Freshly generated code is exercised by C13.",
             "Trusted: the sequential contract model in internal/props/c12.go and internal/obs. Misuse orders are never generated.", "DESIGN.md §2 C12"),
